@@ -15,7 +15,8 @@ def subSpec (declsS : List Sexp) (aS bS : Sexp) : Sexp :=
       match v.witness with
       | some w => encVal w
       | none => .atom "none"],
-      .list (.atom "hyp-failed" :: (if SubSpec.noObjectUnion decls 100 a then [] else [Sexp.atom "NoObjectUnionOnLeft"]))]
+      .list (.atom "hyp-failed" :: ((if SubSpec.noObjectUnion decls 100 a then [] else [Sexp.atom "NoObjectUnionOnLeft"]) ++
+        (if SubSpec.noIndexUnion decls 100 b then [] else [Sexp.atom "NoIndexUnionOnRight"])))]
   | _, _, _ => .list [.atom "spec-decode-error"]
 
 end BeffVerif.Driver
